@@ -19,6 +19,10 @@ def run(ctx):
         {"scens": diamond[:: (6 if q else 1)], "policies": ("FIFO",), "bound": 1, "cap": 4000},
     ]
     plan.append({"scens": wcat.special_dep_scenarios(), "policies": ("FIFO", "LIFO", "JOBS"), "bound": 1})
+    plan.append({"scens": wcat.wait_scenarios(), "policies": ("FIFO", "JOBS"), "bound": 1})
+    # an upstream job process dies abruptly (no marker) at every point, also when it had been taken back by a second scheduler
+    for pol in ("FIFO", "LIFO", "JOBS"):
+        plan.append({"scens": wcat.jobkill_scenarios(), "policies": (pol,), "kills": {"restart_bound": 0}})
     if not q:
         plan.append({"scens": wcat.dag_scenarios(3, rotations=(0, 4), all_orders=False, min_n=3), "policies": ("FIFO",), "bound": 2, "cap": 30000})
     res = run_w(ctx, PROPERTY, plan,
